@@ -60,6 +60,14 @@ type Frame struct {
 type execResult struct {
 	st   *State
 	vals []*Val // results (merged)
+	// the individual live return sites (state and results at each Return instruction)
+	rets []retSite
+}
+
+type retSite struct {
+	st   *State
+	vals []*Val
+	ord  int // ordinal of the Return instruction in block order
 }
 
 func (e *Engine) posOf(p token.Pos) string {
@@ -173,6 +181,15 @@ func (u *Unit) execFunction(fr *Frame, st *State) *execResult {
 	edgeStates := map[[2]int]*State{}         // edge -> state along edge
 	var retStates []*State
 	var retVals [][]*Val
+	var retOrds []int
+	retOrdOf := map[*ssa.Return]int{}
+	for _, bb := range fn.Blocks {
+		for _, ins := range bb.Instrs {
+			if r, ok := ins.(*ssa.Return); ok {
+				retOrdOf[r] = len(retOrdOf) + 1
+			}
+		}
+	}
 	blockEntry := map[int]*State{}
 
 	for _, b := range ci.order {
@@ -269,6 +286,7 @@ func (u *Unit) execFunction(fr *Frame, st *State) *execResult {
 				}
 				retStates = append(retStates, rs)
 				retVals = append(retVals, vs)
+				retOrds = append(retOrds, retOrdOf[x])
 			case *ssa.Panic:
 				if u.genPanics {
 					u.oblige(cur, "panic", fnName(fn), "panic@explicit#"+u.eng.posOf(x.Pos()), u.eng.posOf(x.Pos()), False, nil)
@@ -298,6 +316,12 @@ func (u *Unit) execFunction(fr *Frame, st *State) *execResult {
 	if len(live) == 0 {
 		return &execResult{st: nil}
 	}
+	var sites []retSite
+	for i, s := range retStates {
+		if s != nil && s.pc.S != "false" {
+			sites = append(sites, retSite{st: s, vals: retVals[i], ord: retOrds[i]})
+		}
+	}
 	out := u.merge(live)
 	nres := len(liveVals[0])
 	res := make([]*Val, nres)
@@ -312,7 +336,7 @@ func (u *Unit) execFunction(fr *Frame, st *State) *execResult {
 		}
 		res[j] = &Val{T: u.define("ret", mergeTerms(live, ts))}
 	}
-	return &execResult{st: out, vals: res}
+	return &execResult{st: out, vals: res, rets: sites}
 }
 
 func (u *Unit) setEdge(fr *Frame, ci *cfgInfo, from, to *ssa.BasicBlock, s *State, edges map[[2]int]*State) {
@@ -734,7 +758,7 @@ func (u *Unit) indexAddr(fr *Frame, st *State, x *ssa.IndexAddr) *State {
 		s := base.T
 		u.panicObl(st, fr, x, "index", And(Le(IntLit(0), idx), Lt(idx, SLen(s))))
 		u.assume(st.pc, And(Le(IntLit(0), idx), Lt(idx, SLen(s))))
-		fr.vals[x] = &Val{Elem: &ElemRef{Arr: SArr(s), Idx: u.define("idx", Add(SOff(s), idx)), Elem: t.Elem()}}
+		fr.vals[x] = &Val{Elem: &ElemRef{Arr: SArr(s), Idx: ElemIdx(SOff(s), idx), Elem: t.Elem()}}
 	case *types.Pointer:
 		at := t.Elem().Underlying().(*types.Array)
 		p := base.T
